@@ -352,7 +352,7 @@ Definition ex2_schema : schema :=
                                iv_dirs := [] |} ] (TNamed xs_Int);
              ex_mkfd ex_t [] (TNamed ex_T) ] false ] |}.
 
-Lemma ex2_schema_ok : xr_schema_ok ex2_schema.
+Example C17_ex2_schema_ok : xr_schema_ok ex2_schema.
 Proof.
   split.
   - intros p n fd. unfold xv_lookup_field, sch_get_type, xv_is_query_root. cbn -[streq].
@@ -391,7 +391,7 @@ Example C17_xing_equiv_nonvacuous :
   mx_document_ok ex2_schema ex2_doc_ok = Some true /\ xv_r_fields_merge ex2_schema ex2_doc_ok = true /\
   mx_document_ok ex2_schema ex2_doc_bad = Some false /\ xv_r_fields_merge ex2_schema ex2_doc_bad = false /\
   mxn_document ex2_schema ex2_doc_ok = Some (true, 2%nat).
-Proof. split; [exact ex2_schema_ok|]. vm_compute. repeat split. Qed.
+Proof. split; [exact C17_ex2_schema_ok|]. vm_compute. repeat split. Qed.
 
 (* expand_selections on a cyclic fragment map with a fragment spread twice: the queue walk visits F once, the
    in-place collection twice (and needs fuel); same members *)
